@@ -95,9 +95,18 @@ func (n *vsNode) openSingle(bootstrap bool) error {
 
 // restart stops the node and starts it again as a new process would: a fresh Store object (and listener) on
 // the same directory with the same id.  A single-voter node elects itself whatever its address.
-func (n *vsNode) restart() error {
+func (n *vsNode) restart() error { return n.restartForce(false) }
+
+// restartForce(true) additionally removes the clean_snapshot marker while the node is down (an unclean stop):
+// the database is then rebuilt from the snapshot store and the log, whatever the state of the database file.
+func (n *vsNode) restartForce(force bool) error {
 	if err := n.s.Close(true); err != nil {
 		return err
+	}
+	if force {
+		if err := n.s.ForceSnapshotRestore(); err != nil {
+			return err
+		}
 	}
 	n.ln.Close()
 	m := vsNewNode(n.dir, n.id)
@@ -116,6 +125,28 @@ func (n *vsNode) exec(stmts []string) (uint64, error) {
 		}
 	}
 	return idx, nil
+}
+
+// vsStallReader starts a long-running read on a private connection to the node's database file, so that a
+// TRUNCATE checkpoint cannot complete (fsmSnapshot gives up after truncateTimeout).  The returned function
+// ends the read and closes the connection.
+func vsStallReader(s *Store) (func(), error) {
+	src, err := sql.Open(s.dbPath, false, true)
+	if err != nil {
+		return nil, err
+	}
+	ctx, cancel := context.WithCancel(context.Background())
+	done := make(chan struct{})
+	go func() {
+		defer close(done)
+		src.QueryWithContext(ctx, &proto.Request{Statements: []*proto.Statement{{Sql: "SELECT * FROM t", ForceStall: true}}}, false)
+	}()
+	time.Sleep(time.Second) // as the package's own tests do: the read must have started
+	return func() {
+		cancel()
+		<-done
+		src.Close()
+	}, nil
 }
 
 // ---- dumps ----
